@@ -124,10 +124,10 @@ CHECKS = {
                 note="Parameters in likelihood-flat directions are counted, not judged; ND under load scaling is not in the property; MaxLike runs are slow, the family is smaller.",
                 ref="3 C18"),
     "C19": dict(cat="exploration", tech="exhaustive enumeration of small meshes x node/element numberings x row orders x linear fields; all small incidence structures x value assignments vs union-find",
-                text="Gradient / Gradient3D on hex and 5-/6-tet blocks (1..2)^3, 3 perturbations, 6 node x 3-6 element numberings (offset, gaps, reversed, deranged, zero-based), "
+                text="Gradient / Gradient3D on hex, 5-/6-tet and mixed hex/tet blocks (1..2)^3, 3 perturbations, 6 node x 3-6 element numberings (offset, gaps, reversed, deranged, zero-based), "
                      "row orders incl. fully shuffled, linear fields (64-field sweep on plain configurations), cell sizes 2^-10 / 2^10, kept accessor asked again after the nodes moved; mapper identity / linear reproduction; Surface3D on blocks up to 3x3x3; "
                      "HotSpot labels for all incidence structures of <= 2 (thorough 3) elements x all value assignments in {1,2,3}^rows x 3 thresholds vs a union-find reference.",
-                note="Quadratic elements, mixed hex+tet and unstructured meshes are not enumerated.",
+                note="Quadratic elements and unstructured meshes are not enumerated.",
                 ref="3 C19"),
     "C20": dict(cat="model_checking", tech="explicit-state BFS over exporter call histories (incl. failing calls) on real HDF5 files, dict reference model, twin comparison for failed calls",
                 text="All sequences of exporter events (add_geometry for 11-14 small meshes in id/row-order variants, duplicate and unsupported calls that must raise, "
